@@ -33,7 +33,7 @@ func init() {
 		Run: c11Run,
 		Floors: func(m *Merged, tier string) []string {
 			var u []string
-			for _, c := range []string{"layout_negative_key", "layout_zero_key", "layout_maxkey_254", "layout_maxkey_255", "layout_maxkey_256", "layout_big_key", "layout_undefined_mode", "layout_regvarandop", "layout_prepopulated_then_regvarandop", "fetcher_slice", "fetcher_map", "registrations_checked", "weighted_sums", "ident_probes", "pair_probes", "bindings_with_unregistered_extras", "late_explicit_key_probes"} {
+			for _, c := range []string{"layout_negative_key", "layout_zero_key", "layout_maxkey_254", "layout_maxkey_255", "layout_maxkey_256", "layout_big_key", "layout_undefined_mode", "layout_regvarandop", "layout_prepopulated_then_regvarandop", "fetcher_slice", "fetcher_map", "registrations_checked", "weighted_sums", "ident_probes", "pair_probes", "bindings_with_unregistered_extras", "late_explicit_key_probes", "single_variable_programs"} {
 				if m.C(c) == 0 {
 					u = append(u, c+" = 0")
 				}
@@ -466,6 +466,35 @@ func c11Run(w *W, idx int) {
 				w.Inc("ident_probes")
 				if o.Panic != nil || o.Err != nil || !valEq(o.V, v.val.norm) {
 					w.Fail("wrong-value-delivered/"+v.val.typ, "%s = %s, expected %s (bound %s value %v, optimize=%v)\n%s", src, o, valText(v.val.norm), v.val.typ, v.val.raw, optimize, layoutDesc)
+				}
+			}
+		}
+		// a whole program that is one variable (possible in infix notation only), through Compile + Eval and through the
+		// one-shot eval.Eval helper
+		for _, v := range append(append([]vr{}, intVars...), otherVars...) {
+			if r.Intn(3) != 0 {
+				continue
+			}
+			for _, src := range []string{v.name, "(" + v.name + ")"} {
+				c2 := eval.CopyConfig(cc)
+				c2.CompileOptions[eval.InfixNotation] = true
+				e, co := compileGuard(c2, src)
+				w.Evals++
+				w.Inc("single_variable_programs")
+				if co.Panic != nil || co.Err != nil {
+					w.Fail("single-variable-program/compile", "infix program %q: %s\n%s", src, co, layoutDesc)
+					continue
+				}
+				o := guard(func() (eval.Value, error) { return e.Eval(eval.NewCtxFromVars(c2, vals)) })
+				if o.Panic != nil || o.Err != nil || !valEq(o.V, v.val.norm) {
+					w.Fail("wrong-value-delivered/single-variable-program", "infix program %q = %s, expected %s (bound %s value %v)\n%s", src, o, valText(v.val.norm), v.val.typ, v.val.raw, layoutDesc)
+				}
+				o2 := guard(func() (eval.Value, error) {
+					return eval.Eval(src, vals, eval.EnableInfixNotation, eval.RegVarAndOp(vals))
+				})
+				w.Evals++
+				if o2.Panic != nil || o2.Err != nil || !valEq(o2.V, v.val.norm) {
+					w.Fail("wrong-value-delivered/one-shot-eval", "eval.Eval(%q, vals, EnableInfixNotation, RegVarAndOp(vals)) = %s, expected %s (bound %s value %v)", src, o2, valText(v.val.norm), v.val.typ, v.val.raw)
 				}
 			}
 		}
